@@ -31,7 +31,7 @@ def write_cfg(name, full, core, opc, fmt, wide, tuples, modes):
     return name
 
 
-DEFECT_SWALLOW = "monotone:tombstone-swallows-end_sequence"
+# fixed finding (gimli 47b1cb1): "monotone:tombstone-swallows-end_sequence"; see notes/C04.md
 
 
 def num(b):
@@ -103,15 +103,10 @@ def compare(ctx, case, o):
     # ---- any-input clause on whatever gimli produced
     asz = case["asz"]
     if not mono_ok(o["rows"], asz):
-        if exp.get("merged") and o["rows"] == exp["rows"]:
-            # explained by the as-coded model: an end_sequence row swallowed in tombstone mode
-            ctx.violation(DEFECT_SWALLOW, "rows of two sequences are reported as one sequence with decreasing addresses "
-                          "(DW_LNE_end_sequence swallowed in tombstone mode): %s" % o["rows"], case, o)
-        else:
-            ctx.violation("%s:monotone:rows" % sc, "row addresses decrease within a sequence or exceed the address size: %s" % o["rows"], case, o)
+        ctx.violation("%s:monotone:rows" % sc, "row addresses decrease within a sequence or exceed the address size: %s" % o["rows"], case, o)
     if o["seqs"].get("ok"):
         for s in o["seqs"]["list"]:
-            if not mono_ok(s["rows"], asz) and not exp.get("merged"):
+            if not mono_ok(s["rows"], asz):
                 ctx.violation("%s:monotone:resumed" % sc, "resumed rows not monotone / in range: %s" % s["rows"], case, o)
     # ---- rows
     same = o["rows"] == exp["rows"] and o["end"] == exp["end"]
@@ -249,12 +244,6 @@ def validate(ctx, trace, chunk_units=80):
             h = json.loads(units[k][0])
             return {x: v for x, v in h.items() if x != "raw"}
 
-        # observations the as-coded model explains but the any-input clause forbids
-        for idx in sorted({int(body) for tag, body in res.prints if tag == "NONMONO"}):
-            k = unit_of(idx)
-            ev = json.loads(part[idx - 1])
-            ctx.violation(DEFECT_SWALLOW, "recorded rows() of unit %s decrease within a sequence (end_sequence swallowed in tombstone mode): %s"
-                          % (hdr_of(k).get("tag"), json.dumps(ev["rows"])[:400]), {"header": hdr_of(k), "rows": ev["rows"]}, None)
         # units of ill-formed programs that the as-coded model does not explain (only the any-input clause applies)
         for idx in sorted({int(body) for tag, body in res.prints if tag == "DRIFT"}):
             k = unit_of(idx)
